@@ -248,3 +248,15 @@ Proof.
   apply Permutation_length in P. unfold junit_totals. cbn [fst]. unfold results. rewrite !map_length in *.
   unfold dbs_of in P. rewrite map_length in P. exact P.
 Qed.
+
+(* Ctrl-C at any point before the end, or any reported failure, makes the exit status of the driver non-zero *)
+Corollary driver_ctrlc_or_failure_exit_nonzero cf sched st tr :
+  drun cf (dst0 cf) sched = (st, tr) ->
+  d_ctrlc st = true \/ (exists d b, In (d, RErr b) (d_reported st)) -> exit_of st <> 0.
+Proof.
+  intros H Hc E. apply (driver_exit_truth _ _ _ _ H) in E. destruct E as [Ha Hcc].
+  destruct Hc as [Hc|[d [b Hin]]]; [congruence|].
+  unfold all_ok, results in Ha. rewrite Forall_forall in Ha.
+  assert (Hr : In (RErr b) (map snd (d_reported st))) by (apply in_map_iff; exists (d, RErr b); auto).
+  specialize (Ha _ Hr). discriminate Ha.
+Qed.
